@@ -1451,8 +1451,10 @@ func genGoSrc(p *pkgInfo, out string) {
 			extra += ", ptrParams := [" + strings.Join(ptrParams, ", ") + "]"
 		}
 		pos := fset.Position(fd.Pos())
-		fmt.Fprintf(&b, "/-- `%s` — %s:%d -/\ndef %s : FunDef := { recv := %s, params := %s, body := %s%s }\n\n",
-			fn, filepath.Base(pos.Filename), pos.Line, leanDefName(fn), strconv.Quote(t.recv), leanStrList(params), body, extra)
+		// (the optional fields go in front of the body: Lean wants every field of a structure instance at or right of the
+		// column of the first one, and the body ends at column 2)
+		fmt.Fprintf(&b, "/-- `%s` — %s:%d -/\ndef %s : FunDef := { recv := %s, params := %s%s, body := %s }\n\n",
+			fn, filepath.Base(pos.Filename), pos.Line, leanDefName(fn), strconv.Quote(t.recv), leanStrList(params), extra, body)
 	}
 	// blocks of larger functions: the statements from the first one starting with `from` to the end of the function,
 	// without those that mention one of `skip` (waits on goroutines that belong to the part modelled by contract)
